@@ -381,6 +381,8 @@ static void run_gds_path(Out& out, Rng& g, uint64_t max_points, bool robust, con
     double width = 0.5 * (double)g.range(2, 12), radius = width * (double)g.range(2, 6), a1 = 0.25 * (double)g.range(2, 10);
     double len = (double)g.range(4, 30);
     bool second_arc = g.coin();
+    // fine tolerance: outline of several hundred vertices (fractured); coarse: a few dozen, often below the limit (written whole)
+    double ptol = g.coin() ? 1e-4 : 0.05;
     std::string fn = dir + "/c12_tmp.gds";
     std::string res = in_child(
         [&](FILE* o) {
@@ -392,7 +394,7 @@ static void run_gds_path(Out& out, Rng& g, uint64_t max_points, bool robust, con
             Array<Polygon*> outline = {};
             if (!robust) {
                 FlexPath* fp = (FlexPath*)allocate_clear(sizeof(FlexPath));
-                fp->init(Vec2{0, 0}, 1, width, 0, 1e-4, make_tag(3, 7));
+                fp->init(Vec2{0, 0}, 1, width, 0, ptol, make_tag(3, 7));
                 fp->segment(Vec2{len, 0}, NULL, NULL, true);
                 fp->arc(radius, radius, -M_PI / 2, -M_PI / 2 + a1, 0, NULL, NULL);
                 if (second_arc) fp->arc(2 * radius, 2 * radius, M_PI / 2 + a1, M_PI / 2 + a1 - 0.7, 0, NULL, NULL);
@@ -402,7 +404,7 @@ static void run_gds_path(Out& out, Rng& g, uint64_t max_points, bool robust, con
                 RobustPath* rp = (RobustPath*)allocate_clear(sizeof(RobustPath));
                 rp->num_elements = 1;
                 rp->elements = (RobustPathElement*)allocate_clear(sizeof(RobustPathElement));
-                rp->init(Vec2{0, 0}, width, 0, 1e-4, 1000, make_tag(3, 7));
+                rp->init(Vec2{0, 0}, width, 0, ptol, 1000, make_tag(3, 7));
                 rp->segment(Vec2{len, 0}, NULL, NULL, true);
                 rp->arc(radius, radius, -M_PI / 2, -M_PI / 2 + a1, 0, NULL, NULL);
                 if (second_arc) rp->arc(2 * radius, 2 * radius, M_PI / 2 + a1, M_PI / 2 + a1 - 0.7, 0, NULL, NULL);
